@@ -28,6 +28,10 @@
      FreshStructs 140529a (D23) the verifier extracts the structures of the carried range proofs at every
                                 verification (FALSE: ProofD.cachedRangeStructures, the memo of a ProofD object
                                 that was verified before, is used instead and never invalidated)
+     NonzeroCs   a8c17c7 (D27)  VerifyProofStructure requires 0 < C_i < n.  For C_i = 0 mod n every commitment the
+                                verifier reconstructs from the range proof is 0, whatever the responses, the
+                                descriptor, the index and the m-response are (the element 0 absorbs every product and
+                                the failed inversion is ignored): the prover hashes zeros and needs no witness
 
    Theorems (TLC invariants over a state machine that walks the box):
      Sound    (C12)  ExtractOK(d) /\ Established(d, m)  =>  Holds(Proven(d), m) and, for every query q
@@ -53,7 +57,7 @@ EXTENDS Integers, Sequences, FiniteSets, TLC
 CONSTANTS MMax, KOff, KMax, AMax,      \* box: m in 0..MMax, K and bounds in -KOff..KMax, small factors 0..AMax
           W,                           \* toy word size
           TableLimit,                  \* limit of the three-squares table of the model
-          SignAware, RefuseBig, QueryGuard, HiddenCheck, OverrideM, FreshStructs,
+          SignAware, RefuseBig, QueryGuard, HiddenCheck, OverrideM, FreshStructs, NonzeroCs,
           LayoutIds, AttFactors, AttSlack, FullOps   \* part (b): which configurations are explored
 
 (* ------------------------------------------------------------------ machine words *)
@@ -176,7 +180,7 @@ Val(c, i) == IF i = Lay.t THEN (IF c = 1 THEN st.m ELSE st.m2) ELSE IF i = 0 THE
 
 NoAlt == [f |-> "none", v |-> 0]
 E(at, src) == [at |-> at, src |-> src, alt |-> NoAlt]
-SrcId(name) == CASE name = "R1" -> 1 [] name = "R1b" -> 2 [] name = "R2" -> 3 [] name = "RF" -> 4
+SrcId(name) == CASE name = "R1" -> 1 [] name = "R1b" -> 2 [] name = "R2" -> 3 [] name = "RF" -> 4 [] name = "RZ" -> 5
 StmtDesc(S) == Desc(S.sign, S.factor, S.bound, S.n)
 \* second honest statement of credential 1: on the same index (the opposite inequality, at the boundary) or on index u
 S1b == IF st.two = 1 THEN [sign |-> 0 - st.S.sign, factor |-> st.S.factor, bound |-> st.S.factor * st.m, n |-> st.S.n]
@@ -187,6 +191,8 @@ Src(name) ==
                          mv |-> IF st.two = 1 THEN st.m ELSE Val(1, Lay.u), rnd |-> "attr", d0 |-> StmtDesc(S1b)]
      [] name = "R2"  -> [cred |-> 2, inst |-> 2, idx |-> Lay.t, mv |-> st.m2, rnd |-> "attr", d0 |-> StmtDesc(st.S2)]
      [] name = "RF"  -> [cred |-> 1, inst |-> 1, idx |-> Lay.t, mv |-> st.m2, rnd |-> "own", d0 |-> StmtDesc(st.S2)]
+     \* a range proof for the statement S2 (true of m2, not necessarily of m) whose commitments C_i are all 0 mod n
+     [] name = "RZ"  -> [cred |-> 1, inst |-> 1, idx |-> Lay.t, mv |-> st.m, rnd |-> "zero", d0 |-> StmtDesc(st.S2)]
 \* proofs of one ProofList share the challenge
 ChOf(inst) == IF st.host = "list" THEN 1 ELSE inst
 Hashed1 == IF st.two = 0 THEN <<1>> ELSE IF st.two = 1 \/ Lay.t < Lay.u THEN <<1, 2>> ELSE <<2, 1>>
@@ -195,6 +201,7 @@ HostRec(name) ==
      [] name = "pd2"   -> [cred |-> 2, inst |-> 2, hidden |-> Lay.h, hashed |-> <<3>>]
      [] name = "bare2" -> [cred |-> 2, inst |-> 2, hidden |-> Lay.h, hashed |-> <<>>]
      [] name = "forge" -> [cred |-> 1, inst |-> 1, hidden |-> Lay.h, hashed |-> <<4>>]
+     [] name = "forgez" -> [cred |-> 1, inst |-> 1, hidden |-> Lay.h, hashed |-> <<5>>]     \* the prover hashed zeros
 
 \* descriptor of a carried entry after the adversary's alteration
 DOf(e) ==
@@ -209,11 +216,14 @@ DOf(e) ==
      [] OTHER -> d
 EntryExtractOK(e) == e.alt.f # "Knil" /\ ExtractOK(DOf(e))
 \* VerifyProofStructure: list lengths agree, responses within the sizes derived from Ld
-SizeOK(e) == e.alt.f \notin {"big", "nC"} /\ DOf(e).Ld >= Src(e.src).d0.Ld
+SizeOK(e) == /\ e.alt.f \notin {"big", "nC"} /\ DOf(e).Ld >= Src(e.src).d0.Ld
+             /\ NonzeroCs => Src(e.src).rnd # "zero"
 SameStruct(d, d0) == d.Sign = d0.Sign /\ d.A = d0.A /\ d.K = d0.K /\ d.n = d0.n
 \* commitments reconstructed for entry e inside host h: the hashed ones (id of the source) or something else (0)
 Recon(e, h) ==
    LET s == Src(e.src) IN
+   IF s.rnd = "zero" THEN SrcId(e.src)       \* zeros, whatever else the proof and its host say
+   ELSE
    IF /\ e.alt.f \notin {"Cs", "ds", "vs", "v5", "nAll"}
       /\ SameStruct(DOf(e), s.d0)
       /\ ChOf(s.inst) = ChOf(h.inst)
@@ -336,6 +346,8 @@ WithOther ==
               \/ F("pd2", <<E(t, "R2"), E(t, "R1")>>, <<>>, "into-other-add")
               \/ F("bare2", <<E(t, "R1")>>, <<>>, "onto-bare")
               \/ F("forge", <<E(t, "RF")>>, <<>>, "forge")
+              \/ F("forgez", <<E(t, "RZ")>>, <<>>, "forge-zero")
+              \/ \E j \in Lay.h \ {t} : F("forgez", <<E(j, "RZ")>>, <<>>, "forge-zero-at")
               \/ F("list", <<E(t, "R1")>>, <<E(t, "R2")>>, "list-honest")
               \/ F("list", <<E(t, "R2")>>, <<E(t, "R1")>>, "list-swap")
               \/ F("list", <<>>, <<E(t, "R2"), E(t, "R1")>>, "list-move")
